@@ -2938,11 +2938,14 @@ def _put_slice_Call_ClassDef_keywords(
     exprs_field = 'args' if ast.__class__ is Call else 'bases'
     exprs = getattr(ast, exprs_field)
 
-    if exprs and start != stop and body[start].f.loc < exprs[-1].f.loc:
-        raise NodeError(f'cannot put to {ast.__class__.__name__}.keywords slice because it precedes {exprs_field}'
-                        f", try the '_{exprs_field}' field")
-
     nexprs = len(exprs)
+
+    if exprs and start < len(body) and (loc := body[start].f.loc) < exprs[-1].f.loc:
+        if start != stop:
+            raise NodeError(f'cannot put to {ast.__class__.__name__}.keywords slice because it precedes {exprs_field}'
+                            f", try the '_{exprs_field}' field")
+
+        nexprs = sum(1 for a in exprs if a.f.loc < loc)  # pure insertion in front of a keyword which precedes some of the exprs
 
     return _put_slice_Call_ClassDef_arglikes(self, code, start + nexprs, stop + nexprs, '_' + exprs_field, one, options,
                                              kw_only=True)
